@@ -321,3 +321,112 @@ func paddingVariants(pt byte, marker bool, seq uint16, ts uint32, payload []byte
 	}
 	return out
 }
+
+// ---------------------------------------------------------------- the other RFC 6184 / RFC 7798 payload structures
+
+// Well-formed packets of the payload structures real encoders hardly ever send
+// but a receiver must survive: RFC 6184 §5.7.1 STAP-B (type 25: 16-bit DON after
+// the header), §5.7.2 MTAP16 / MTAP24 (types 26 / 27: 16-bit DONB, then per unit
+// a 16-bit size that covers DOND(8) + TS offset(16 / 24) + the NAL unit), §5.8
+// FU-B (type 29: FU-A plus a 16-bit DON after the FU header); RFC 7798 §4.4.4
+// PACI (type 50: payload header, then A(1) cType(6) PHSsize(5) F0..2(3) Y(1),
+// PHSsize octets of extension, then the payload of the carried packet) and the
+// reserved payload header types 51..63.
+
+func h264StapB(don uint16, nals [][]byte) []byte {
+	p := []byte{0x60 | 25, byte(don >> 8), byte(don)}
+	for _, n := range nals {
+		p = append(p, byte(len(n)>>8), byte(len(n)))
+		p = append(p, n...)
+	}
+	return p
+}
+
+func h264Mtap(tsOffsetBytes int, donb uint16, nals [][]byte) []byte {
+	typ := byte(26)
+	if tsOffsetBytes == 3 {
+		typ = 27
+	}
+	p := []byte{0x60 | typ, byte(donb >> 8), byte(donb)}
+	for i, n := range nals {
+		size := 1 + tsOffsetBytes + len(n)
+		p = append(p, byte(size>>8), byte(size), byte(i)) // size, DOND
+		for k := 0; k < tsOffsetBytes; k++ {
+			p = append(p, byte(0x10*i+k)) // TS offset
+		}
+		p = append(p, n...)
+	}
+	return p
+}
+
+func h264FuB(nal []byte, don uint16, start, end bool) []byte {
+	h := nal[0] & 0x1f
+	if start {
+		h |= 0x80
+	}
+	if end {
+		h |= 0x40
+	}
+	return append([]byte{nal[0]&0xe0 | 29, h, byte(don >> 8), byte(don)}, nal[1:]...)
+}
+
+func h265Paci(nal []byte, phes []byte) []byte {
+	ctype := nal[0] >> 1 & 0x3f
+	v := uint16(ctype)<<9 | uint16(len(phes)&0x1f)<<4
+	p := []byte{nal[0]&0x81 | 50<<1, nal[1], byte(v >> 8), byte(v)}
+	p = append(p, phes...)
+	return append(p, nal[2:]...)
+}
+
+var (
+	refIdr264 = append([]byte{0x65, 0x88, 0x84}, bytesOf(0x91, 20)...)
+	refIdr265 = append([]byte{19 << 1, 0x01, 0xaf}, bytesOf(0x91, 20)...)
+)
+
+func bytesOf(b byte, n int) []byte {
+	out := make([]byte, n)
+	for i := range out {
+		out[i] = b
+	}
+	return out
+}
+
+// otherStructures returns well-formed-looking packets of those types.
+func otherStructures(codec esgen.Codec) []hostile {
+	if codec == esgen.H264 {
+		return []hostile{
+			{"stapb-sps-pps-idr", h264StapB(7, [][]byte{esgen.RealH264SPS, esgen.RealH264PPS, refIdr264})},
+			{"mtap16-sps-pps-idr", h264Mtap(2, 7, [][]byte{esgen.RealH264SPS, esgen.RealH264PPS, refIdr264})},
+			{"mtap24-sps-pps-idr", h264Mtap(3, 7, [][]byte{esgen.RealH264SPS, esgen.RealH264PPS, refIdr264})},
+			{"mtap16-one-unit", h264Mtap(2, 0xffff, [][]byte{refIdr264})},
+			{"mtap24-one-unit", h264Mtap(3, 0, [][]byte{{0x41, 0x9a}})},
+			{"fub-start", h264FuB(refIdr264, 9, true, false)},
+			{"fub-whole", h264FuB(refIdr264, 9, true, true)},
+			{"fub-end", h264FuB(refIdr264, 9, false, true)},
+			// the seeded-change shapes: an MTAP cut inside DOND / TS offset after a non-zero size
+			{"mtap16-cut-after-size", hx(0x7a, 0x00, 0x01, 0x00, 0x08)},
+			{"mtap16-cut-in-dond", hx(0x7a, 0x00, 0x01, 0x00, 0x08, 0x00)},
+			{"mtap16-cut-in-ts-offset", hx(0x7a, 0x00, 0x01, 0x00, 0x08, 0x00, 0x00)},
+			{"mtap24-cut-in-ts-offset", hx(0x7b, 0x00, 0x01, 0x00, 0x08, 0x00, 0x00, 0x00)},
+			{"stapb-cut-after-don", hx(0x79, 0x00, 0x01, 0x00)},
+		}
+	}
+	out := []hostile{
+		{"paci-idr", h265Paci(refIdr265, nil)},
+		{"paci-with-extension", h265Paci(refIdr265, []byte{0x80, 0x01, 0x02})},
+		{"paci-phssize-beyond", append(append([]byte{}, h265Paci(refIdr265, make([]byte, 31))[:4]...), 0x80, 0x01)}, // PHSsize 31, 2 octets present
+		{"paci-header-only", hx(0x64, 0x01)},
+		{"paci-three-bytes", hx(0x64, 0x01, 0x26)},
+		{"paci-carrying-ap", h265Paci(append([]byte{0x60, 0x01}, 0x00, 0x03, 0x26, 0x01, 0xaf), nil)},
+	}
+	for typ := byte(51); typ <= 63; typ++ {
+		out = append(out, hostile{fmt.Sprintf("reserved-type-%d", typ), append([]byte{typ << 1, 0x01}, refIdr265[2:]...)})
+	}
+	out = append(out, hostile{"reserved-type-63-two-bytes", hx(63<<1, 0x01)}, hostile{"reserved-type-51-three-bytes", hx(51<<1, 0x01, 0x00)})
+	return out
+}
+
+func init() {
+	hostileH264 = append(hostileH264, otherStructures(esgen.H264)...)
+	hostileH265 = append(hostileH265, otherStructures(esgen.H265)...)
+}
